@@ -358,7 +358,20 @@ func (ssc *StatefulSetController) adoptOrphanRevisions(set *apps.StatefulSet) er
 			break
 		}
 	}
-	if hasOrphans {
+	// a set that is being deleted adopts nothing
+	if hasOrphans && set.DeletionTimestamp == nil {
+		// confirm with an uncached read that the set still exists, is the same object and is not
+		// being deleted before any revision is touched
+		fresh, err := ssc.pcClient.AppsV1().StatefulSets(set.Namespace).Get(context.TODO(), set.Name, metav1.GetOptions{})
+		if err != nil {
+			return err
+		}
+		if fresh.UID != set.UID {
+			return fmt.Errorf("original StatefulSet %v/%v is gone: got uid %v, wanted %v", set.Namespace, set.Name, fresh.UID, set.UID)
+		}
+		if fresh.DeletionTimestamp != nil {
+			return fmt.Errorf("%v/%v has just been deleted at %v", set.Namespace, set.Name, fresh.DeletionTimestamp)
+		}
 		for i := range revisions {
 			if shouldSyncLabels(revisions[i]) {
 				revisions[i], err = syncLabels(ssc.kubeClient, set, revisions[i])
@@ -366,13 +379,6 @@ func (ssc *StatefulSetController) adoptOrphanRevisions(set *apps.StatefulSet) er
 					return err
 				}
 			}
-		}
-		fresh, err := ssc.pcClient.AppsV1().StatefulSets(set.Namespace).Get(context.TODO(), set.Name, metav1.GetOptions{})
-		if err != nil {
-			return err
-		}
-		if fresh.UID != set.UID {
-			return fmt.Errorf("original StatefulSet %v/%v is gone: got uid %v, wanted %v", set.Namespace, set.Name, fresh.UID, set.UID)
 		}
 		// revisions this set already controls need no adoption
 		orphans := make([]*kubeapps.ControllerRevision, 0, len(revisions))
